@@ -352,6 +352,10 @@ SNIPPETS = [
     ".. io-code-block::\n\n   .. note::\n\n      x\n",
     ".. image:: /images/b.png\n   :alt: b\n\n.. image:: /images/a.png\n   :alt: a\n\n.. figure:: /images/c.png\n   :alt: c\n",
     ".. image:: /images/missing-{i}.png\n   :alt: m\n",
+    # the same files under other spellings (relative to the page, with a redundant segment): what a page records about an asset
+    # is the spelling in ITS source, whichever page mentioned the file first
+    ".. image:: images/a.png\n   :alt: rel\n\n.. figure:: /images/../images/b.png\n   :alt: dotdot\n",
+    ".. figure:: images/c.png\n   :alt: rel-c\n\n.. image:: /images/./a.png\n   :alt: dot\n",
     ".. include:: /includes/inc{inc}.rst\n",
     ".. tabs-drivers::\n\n   tabs:\n     - id: python\n       content: |\n         py\n     - id: shell\n       content: |\n         sh\n",
     ".. tabs-drivers::\n\n   tabs:\n     - id: java-sync\n       content: |\n         j\n     - id: nosuchtab\n       content: |\n         n\n",
